@@ -720,6 +720,21 @@ class Gen:
             if form == 'pre_until':
                 return [{'k': 'do', 'pre': ['until', t], 'post': None, 'body': []}]
             return [{'k': 'while', 'cond': f, 'body': []}]
+        if self.p['devfuncs'] and self.p['strings'] and sc.kind == 'main' and r.random() < 0.12:
+            # the wait-for-a-key idiom: poll INKEY$ until it answers (or a
+            # few polls have gone by)
+            c = self.new_scalar(sc, '%')
+            sc.frozen.add(c)
+            ks = self.new_scalar(sc, '$')
+            m = self.next_marker()
+            return [{'k': 'let', 'lv': ['var', c], 'e': ['lit', '%', 0]},
+                    {'k': 'do', 'pre': None,
+                     'post': ['until', ['bin', 'or', ['bin', '<>', ['var', ks], ['lit', '$', '']],
+                                        ['bin', '>=', ['var', c], ['lit', '%', r.randint(2, 5)]]]],
+                     'body': [{'k': 'let', 'lv': ['var', c], 'e': ['bin', '+', ['var', c], ['lit', '%', 1]]},
+                              {'k': 'let', 'lv': ['var', ks], 'e': ['dev', 'inkey$', []]}]},
+                    {'k': 'print', 'marker': m,
+                     'items': [[['lit', '$', f'<{m}>'], ';'], [['var', ks], ';'], [['var', c], '']]}]
         c = self.new_scalar(sc, '%')
         sc.frozen.add(c)
         n = r.randint(1, 4)
@@ -1863,7 +1878,7 @@ def gen_script(r, meta=None, prof=None):
             lines.append(','.join(fs))
     return {
         'input_lines': lines,
-        'inkey': [r.choice(('', 'a', 'q', '\r', chr(27), '\x00H')) for _ in range(r.randint(0, 6))],
+        'inkey': [r.choice(('', '', 'a', 'q', '\r', chr(27), '\x00H')) for _ in range(r.randint(0, 6))],
         'rnd': [r.choice((0.0, 0.25, 0.5, 0.75, 0.125, 0.99999994, 0.3125))
                 for _ in range(r.randint(1, 6))],
         'clock0': r.choice((0.0, 3600.0, 43200.5, 86399.0, 86399.75)),
